@@ -218,6 +218,14 @@ R.contract(
     # offsets are representable as QUIC varints (nobody writes 2^62 bytes to a stream); logger plumbing; no builder overrun so far
     assume_pre=["stream.sender._buffer_stop <= 4611686018427387903", "self._quic_logger is None or builder.quic_logger_frames is not None", "not builder.g_ovr"],
     returns="int",
+    # C01 'again after loss': the range registered with the frame (what on_data_delivery will put back into the pending set
+    # when the packet is lost, or count as acknowledged) is exactly the range get_frame took out of the send half, FIN included
+    call_asserts={"QuicPacketBuilder.start_frame": [
+        "arg_handler_args[0] == frame.offset",
+        "arg_handler_args[1] == frame.offset + len(frame.data)",
+        "arg_handler_args[2] == frame.fin",
+        "arg_frame_type == 8 + 2 + (4 if frame.offset != 0 else 0) + (1 if frame.fin else 0)",
+    ]},
     modifies=[
         "stream.sender._pending._RangeSet__ranges", "stream.sender._pending.gview", "stream.sender._pending.gidx",
         "stream.sender._pending_eof", "stream.sender.buffer_is_empty", "stream.sender.highest_offset",
@@ -486,7 +494,19 @@ R.contract(
         "now >= some(space.largest_received_time) and now - some(space.largest_received_time) <= 1099511627776",
         "0 <= self._local_ack_delay_exponent <= 20",
         "self._quic_logger is None or builder.quic_logger_frames is not None", "not builder.g_ovr",
+        # the largest number received is the largest number waiting to be acknowledged: receive_datagram@record proves that no
+        # waiting number exceeds it and that a packet carrying the highest number joins the set; that it is still waiting
+        # when an ACK is written relies on the peer acknowledging our ACKs causally (in packets numbered above what the ACK
+        # covered), as every real sender does - assumed
+        "space.largest_received_packet == sel(RL(space.ack_queue), len(RL(space.ack_queue)) - 1).stop - 1",
     ],
+    # C12 'an acknowledged ACK frame prunes exactly the numbers up to the largest number THAT FRAME carried': what is registered
+    # with the frame is (this space, the largest number the frame lists) - _on_ack_delivery prunes [0, that number]
+    call_asserts={"QuicPacketBuilder.start_frame": [
+        "arg_handler_args[0] == space",
+        "arg_handler_args[1] == sel(RL(space.ack_queue), len(RL(space.ack_queue)) - 1).stop - 1",
+        "arg_frame_type == 2",
+    ]},
     let={"pkt": "some(builder._packet)", "n_": "len(RL(space.ack_queue))"},
     raises={"QuicPacketBuilderStop": None},
     # refused before anything was written, or the ACK frame is in the packet and only the extra PING did not fit
